@@ -251,14 +251,18 @@ func checkC17Decode(r *run, c *FixedCase) (CaseInfo, error) {
 		}
 	case "abscapturetime":
 		d := rtp.AbsCaptureTimeExtension{Timestamp: c.A}
+		off := c.Offset
 		if c.HasOffset {
-			off := c.Offset
 			d.EstimatedCaptureClockOffset = &off
 			ci.class("decode-receiver-had-offset")
 		}
 		err := d.Unmarshal(raw)
 		if short != (err != nil) {
 			return ci, fail(d, err)
+		}
+		if off != c.Offset {
+			// the int64 the receiver pointed at is the caller's (another extension value may share it)
+			return ci, failf("AbsCaptureTime.Unmarshal(%s) wrote %d through the offset pointer the receiver held before (the caller's variable, was %d)", hx(raw), off, c.Offset)
 		}
 		if !short {
 			if d.Timestamp != binary.BigEndian.Uint64(raw) {
